@@ -193,6 +193,26 @@ EXTRA6 = {
     "C20": ("identity and weak-wire mechanisms", "Also decides branch identity and the weak-link boundary bits under this property."),
 }
 
+EXTRA7 = {
+    "C01": ("creation mechanism (origins at every local Item::new site)", "Also decides origin capture under this property."),
+    "C02": ("R-ANSWER the block picker ends only on exhaustion of the client list (subject of each Try::branch)", "Also decides when the walk over an incoming update may end."),
+    "C03": ("R-PROV a text measures itself in the configured unit (no Text method reads the block length; push at Text::len); creation mechanism", "Also decides the unit of Text::len / push."),
+    "C04": ("liveness mechanism", "Also decides liveness in positional traversals under this property."),
+    "C06": ("R-TABLE kind-preserving converters (Block::splice, Block::as_slice) via kinds_reaching; clock arithmetic identities", "Also decides that splitting a block keeps its kind."),
+    "C07": ("R-GUARD the update emission is decided by the latch and the event registry alone", "Also decides that nothing else gates the update events."),
+    "C08": ("kind-preserving converters in the merge mechanism", "Also decides that slicing in merge_updates keeps the block kind."),
+    "C09": ("R-TABLE key -> Any kind of the sub-document options (writer aggregate / resolved From impl vs reader pattern)", "Also decides the value kinds of the options map."),
+    "C11": ("R-PROV fresh weak-link guard per changed type (observers mechanism)", "Also decides that event bubbling state is per changed type."),
+    "C12": ("R-PROV cursor of the delete-set block walk (delete-set mechanism)", "Also decides the cursor arithmetic of IdSet::blocks()."),
+    "C13": ("R-ORDER+R-GUARD scoped GC stays inside the delete range (gc-scope mechanism)", "Also decides that a scoped collection does not reach past its range."),
+    "C14": ("R-TABLE clock arithmetic identities and closed-interval bisections (lookup mechanism)", "Also decides clock_range / next_clock / bisection discipline the anchor lookup relies on."),
+    "C15": ("gc-scope mechanism; C17.b content reads in the liveness mechanism", "Also decides scoped collection and liveness of yielded content."),
+    "C16": ("lookup mechanism: bisection discipline of IdRanges::find_start, range accessors", "Also decides the search loop behind attributions()."),
+    "C17": ("R-TABLE ItemContent::read uses the offset in every multi-element arm", "Also decides the read offset."),
+    "C18": ("range accessors in the state-vector mechanism (clock_start = first().start)", "Also decides what clock_start answers."),
+    "C20": ("C17.b content reads in the liveness mechanism", "Also decides liveness of the values a quotation yields."),
+}
+
 PENDING = {
 }
 
@@ -201,7 +221,7 @@ def main():
     checks = []
     for pid in sorted(CHECKS):
         tech, text, ref = CHECKS[pid]
-        for ex in (EXTRA, EXTRA2, EXTRA3, EXTRA4, EXTRA5, EXTRA6):
+        for ex in (EXTRA, EXTRA2, EXTRA3, EXTRA4, EXTRA5, EXTRA6, EXTRA7):
             if pid in ex:
                 tech = tech + "; " + ex[pid][0]
                 text = text + " " + ex[pid][1]
